@@ -55,12 +55,17 @@ def required_counters(tier):
         "nested_unhooked_inside_hooked": 30,
         "nested_hooked_inside_unhooked": 10,
         "pyc_files_created": 200,
-        "runs_with_cache_present": 100,
+        "runs_with_cache_present": 100, "runs_with_failing_hooked_import": 20, "runs_read_only_cache": 20,
     }
+
+
+BROKEN = "brokenmod"
 
 
 def write_forest(root, mods, versions):
     C11.write_forest(root, mods)
+    with open(os.path.join(root, BROKEN + ".py"), "w") as f:
+        f.write("def f(:\n    pass\n")  # does not compile
     for m in mods:
         set_version(root, mods, m, versions[m], bump=False)
 
@@ -111,6 +116,12 @@ def gen_run(rng, mods):
     rng.shuffle(order)
     for m in order[: rng.randint(2, len(order))]:
         ops.append({"op": "import", "module": m})
+    if rng.random() < 0.3:
+        # an optional module that fails to compile, hooked or not, somewhere among the imports
+        if ops and ops[0]["op"] == "install" and rng.random() < 0.7:
+            nm = ops[0]["names"]
+            ops[0]["names"] = ([nm] if isinstance(nm, str) else list(nm)) + [BROKEN]
+        ops.insert(rng.randint(1 if ops and ops[0]["op"] == "install" else 0, len(ops)), {"op": "import_failing", "module": BROKEN})
     return ops
 
 
@@ -143,13 +154,19 @@ def run_history(rec, rng, key):
                 edited.append(m)
                 rec.count("source_edits")
             ops = gen_run(rng, mods)
+            if any(o["op"] == "import_failing" for o in ops):
+                rec.count("runs_with_failing_hooked_import")
             before = pycs(root)
             env = dict(os.environ)
             env.pop("PYTHONDONTWRITEBYTECODE", None)
+            # some later runs only READ the cache (python -B): reading still happens
+            nowrite = ri > 0 and rng.random() < 0.25
+            if nowrite:
+                rec.count("runs_read_only_cache")
             env["PYTHONPYCACHEPREFIX"] = ""
             env.pop("PYTHONPYCACHEPREFIX", None)
             spec = {"root": root, "ops": ops, "mode": "api", "extra": None}
-            r = subprocess.run([sys.executable, "-c", "import sys; sys.dont_write_bytecode = False; sys.argv = ['c11_child', sys.argv[1]]; import runpy; runpy.run_path(%r, run_name='__main__')" % C11.CHILD, json.dumps(spec)], capture_output=True, text=True, env=env, timeout=600, cwd=root)
+            r = subprocess.run([sys.executable, "-c", "import sys; sys.dont_write_bytecode = %s; sys.argv = ['c11_child', sys.argv[1]]; import runpy; runpy.run_path(%r, run_name='__main__')" % (nowrite, C11.CHILD), json.dumps(spec)], capture_output=True, text=True, env=env, timeout=600, cwd=root)
             try:
                 out = json.loads(r.stdout.strip().splitlines()[-1])
             except Exception:
@@ -160,7 +177,7 @@ def run_history(rec, rng, key):
             rec.count("pyc_files_created", len(created))
             if before:
                 rec.count("runs_with_cache_present")
-            history.append({"run": ri, "ops": ops, "edited": edited, "pyc_created": created[:12]})
+            history.append({"run": ri, "ops": ops, "edited": edited, "read_only_cache": nowrite, "pyc_created": created[:12]})
             case = {"rngkey": key, "forest": mods, "history": history}
             if "error" in out:
                 rec.inconclusive.append("run failed: " + out["error"])
